@@ -87,6 +87,23 @@ def enumerate_cases(tier):
         yield dict(m=3, t=1, prss=bool(f % 2), l=l, f=f, seed=f, recs=recs[:1] + recs[len(recs) // 2:len(recs) // 2 + 1])
 
 
+    # wide types (l > 2*sec_param): equality goes through the probabilistic zero test (Runtime._is_zero), which
+    # opens a degree-2t product; exact comparisons at m >= 3, t >= 1 with and without PRSS
+    for l, f in ((64, 32), (80, 40), (62, 20)):
+        one = 1 << f
+        B = (1 << (l - 1)) - 1
+        vals = [0, one, -one, 3 * one + 1, B, -B - 1, 5, -7 * one - 3]
+        recs = []
+        for i, a in enumerate(vals):
+            for b in (a, vals[(i + 3) % len(vals)]):
+                if abs(a - b) <= B:
+                    for rel in ('eq', 'ne', 'lt', 'ge'):
+                        recs.append(['cmp', rel, ['s', a, i % 3, False], ['s', b, (i + 1) % 3, False]])
+        for i in range(0, len(recs), 16):
+            yield dict(m=3, t=1, prss=bool((i // 16) % 2), l=l, f=f, seed=l + i, recs=recs[i:i + 16])
+        yield dict(m=5, t=2, prss=True, l=l, f=f, seed=l, recs=recs[::9])
+
+
 def strategy(tier):
     return fxpgen.case(tier, WEIGHTS, whole_bias=0.2, m1_share=0.35, div_share=0.55)
 
